@@ -58,18 +58,39 @@ theorem qubLoop_good (P : Problem α) (pr : Params α) (f : Nat) (c : Iterate α
     · exact h
 
 /-- After the prox / QUB stage the current iterate is good — whatever the state before. -/
+theorem firstStep_good (P : Problem α) (pr : Params α) (s : St α) : Good P pr (firstStep P pr s) := by
+  unfold firstStep
+  simp only []
+  cases hf : fixedLip pr <;> cases hn : needGradHat pr <;>
+    simp only [Bool.not_true, Bool.not_false, Bool.or_true, Bool.or_false,
+      if_true, if_false, Bool.false_eq_true]
+  · exact good_evalStep P pr _
+  · exact good_evalStep P pr _
+  · exact ⟨proxCons_evalProx P _, fun hc => by simp [hf, hn] at hc⟩
+  · exact good_evalStep P pr _
+
+theorem withGradHat_good (P : Problem α) (pr : Params α) (c : Iterate α) (h : Good P pr c) :
+    Good P pr (withGradHat P pr c) := by
+  unfold withGradHat; split_ifs
+  · exact good_evalGradPsiHat P pr c h
+  · exact h
+
 theorem proxStage_good (P : Problem α) (pr : Params α) (s : St α) :
     Good P pr (proxStage P pr s).curr := by
   unfold proxStage
-  simp only []
-  apply qubLoop_good
-  cases hf : fixedLip pr <;> cases hn : needGradHat pr <;>
-    simp only [Bool.not_true, Bool.not_false, Bool.or_true, Bool.or_false, Bool.true_or,
-      Bool.false_or, if_true, if_false, Bool.false_eq_true]
-  · exact good_evalStep P pr _
-  · exact good_evalGradPsiHat P pr _ (good_evalStep P pr _)
-  · exact ⟨proxCons_evalProx P _, fun hc => by simp [hf, hn] at hc⟩
-  · exact good_evalGradPsiHat P pr _ (good_evalStep P pr _)
+  exact withGradHat_good P pr _ (qubLoop_good P pr _ _ _ _ (firstStep_good P pr s))
+
+/-- `∇ψ(x̂)` held by the iterate is the `eval_grad_L` oracle's answer *at the iterate's own*
+    `x̂`, `ŷ` whenever the stopping criterion reads it (no stale gradient after backtracking). -/
+def GradHatCons (P : Problem α) (pr : Params α) (i : Iterate α) : Prop :=
+  needGradHat pr = true → i.gradPsiHat = P.gradL i.xhat i.yhat
+
+theorem proxStage_gradHat (P : Problem α) (pr : Params α) (s : St α) :
+    GradHatCons P pr (proxStage P pr s).curr := by
+  intro hn
+  unfold proxStage withGradHat
+  simp only [hn, if_true]
+  rfl
 
 theorem proxStage_k (P : Problem α) (pr : Params α) (s : St α) :
     (proxStage P pr s).k = s.k ∧ (proxStage P pr s).cbs = s.cbs ∧ (proxStage P pr s).t = s.t := by
@@ -186,7 +207,9 @@ theorem head_tick_le (P : Problem α) (pr : Params α) (stop : Nat → Bool) (oo
     s.tick ≤ (headStep P pr stop oot (proxStage P pr s)).1.tick := by
   unfold headStep proxStage
   simp only []
-  exact le_trans (le_trans (by omega) (qubLoop_tick_le P pr _ _ _ _)) (Nat.le_add_right _ _)
+  have h1 : s.tick ≤ firstTick pr s := by unfold firstTick; omega
+  exact le_trans (le_trans (le_trans h1 (qubLoop_tick_le P pr _ _ _ _)) (Nat.le_add_right _ _))
+    (Nat.le_add_right _ _)
 
 theorem initState_k (P : Problem α) (pr : Params α) (x0 gV : Vec α) (nan : α) (s : St α)
     (h : initState P pr x0 gV nan = .inr s) : s.k = 0 ∧ s.cbs = [] ∧ s.fuelOut = false := by
